@@ -43,6 +43,10 @@ CHECKS = {
    technique="both builds bound to the same deterministic TLA+ specification (Wire.tla) by trace validation on identical seeded inputs, plus a line-by-line diff of the two transcripts",
    text="The 35 dual-variant codecs x blocks encoded by every path and decoded into fresh and used-then-reset targets, DecodeColumn on arbitrary bytes - every byte value for 8-bit kinds, every 16-bit value for 16-bit kinds - in a `-tags verif` and a `-tags verif,purego` binary; each trace validated by TLC, then the traces compared.",
    note="Trusted: TLC; error texts are not compared, only presence of an error; decoding into a non-empty column is out of scope as the property states."),
+ "C16": dict(engine="ColumnHistory", category="model_checking", design_ref="DESIGN.md §5 C16",
+   technique="TLA+ list-of-values model of a reused column (TLC exhaustive to 7 operations, with a stale-dictionary variant for non-vacuity) + every bounded operation history executed on real column objects, replayed by TLC in the model with every encode output decoded by the Wire.tla reference decoder (trace validation)",
+   text="24 column kinds (all with hidden state and representatives of the others) x every history of length 3 (quick) / 4 (thorough) over 10 operations plus random histories up to 45 operations, default and purego builds; after every operation the row count, and for every encode the bytes, are validated against the model's current contents.",
+   note="Trusted: TLC; decode is exercised only into empty (fresh or reset) columns; valid decode input is produced by a fresh column's encoder (validated by C01)."),
  "C14": dict(engine="Writer", category="model_checking", design_ref="DESIGN.md §5 C14",
    technique="TLA+ model of the vectored writer with explicit backing arrays (TLC exhaustive) + every bounded operation sequence executed on the real proto.Writer and validated by TLC (trace validation)",
    text="Exhaustive at the stated sequence length over a 12-operation alphabet, plus random long sequences; each Flush's delivered bytes are compared by TLC with the specification's pending contents.",
@@ -84,6 +88,8 @@ def main():
              "kind_free_text": "TLA+ state machine of Client.Do (three goroutines, errgroup, writer, connection, faults, cancellation, next request); MC_QL*.cfg model checking, Gen_QL*.cfg behaviour generation, Trace_QL trace validation"},
             {"name": "Wire", "path": "spec/Wire.tla", "serves_properties": ["C01", "C07", "C15", "C16", "C14"],
              "kind_free_text": "TLA+ functional specification of the native format (varints, strings, LE integers, column layouts for a type AST, state prefixes, LowCardinality, block header); MC_Wire design lemma, Trace_Wire trace validation"},
+            {"name": "ColumnHistory", "path": "spec/ColumnHistory.tla", "serves_properties": ["C16"],
+             "kind_free_text": "TLA+ list-of-values model of column reuse; MC_ColumnHistory*.cfg, Trace_ColumnHistory (uses Wire.tla to decode encode outputs)"},
             {"name": "Frames", "path": "spec/Frames.tla", "serves_properties": ["C05"],
              "kind_free_text": "TLA+ model of compress.Reader over abstract frame streams with alteration classes; MC_Frames*.cfg, Trace_Frames"},
             {"name": "Pool", "path": "spec/Pool.tla", "serves_properties": ["C11", "C12"],
